@@ -98,7 +98,7 @@ TESTED_NOT_PROVED = [
     "(oracle on every option / helper / list / history case)",
     "isinstance(order, tuple) in find_unequal_order_edges: ITS graphs whose order is a list are outside the model (the library never builds them)",
 ]
-LEVEL_TEXT = ("Machine-checked proof (Coq, 102 theorems, all closed under the global context) over an executable model of get_rc and RadiusExpand: on every "
+LEVEL_TEXT = ("Machine-checked proof (Coq, 109 theorems, all closed under the global context) over an executable model of get_rc and RadiusExpand: on every "
               "well-formed ITS graph whose standard_order is the order difference the centre contains a bond iff its two orders differ or both atoms "
               "are hydrogens (for ignore_aromaticity ITS graphs: iff the orders differ by at least 1, with a witness that 'differs' alone fails; "
               "stated also on the two sides: for the ITS of a reactant graph G and a product graph H two atoms are joined in the centre iff they are "
@@ -165,7 +165,7 @@ def impl_x(case):
     from synkit.Graph.ITS.its_decompose import get_rc
     if case.get("rne"):
         from synkit.Graph.Context.radius_expand import RadiusExpand
-        return X.obs_xits(RadiusExpand.remove_normal_edges(E.to_nx(case["X"]), "is_mtg"))
+        return [X.obs_xits(RadiusExpand.remove_normal_edges(E.to_nx(case["X"]), k)) for k in ("is_mtg", "order", "no_such_key")]
     if case.get("alt"):
         # bond_key / standard_key other than the defaults: the same graph with the two edge attributes renamed
         out = []
@@ -865,7 +865,7 @@ def coq_case(case):
         if case.get("raw"):
             return None
         if "X" in case and case.get("rne"):
-            return "txits (remove_normal_mtg %s)" % X.coq_xits(case["X"])
+            return "run_rne %s" % X.coq_xits(case["X"])
         if "X" in case:
             return "run_opts %s %s" % (X.coq_keys(case["keys"]), X.coq_xits(case["X"]))
         if "Is" in case:
